@@ -258,6 +258,7 @@ theorem lenInv : ∀ fuel, LenInv fuel
       | ifs br els => simp only [stmtS]; exact ih.ifs br els st
       | «while» c body => simp only [stmtS]; exact ih.whl c body st
       | foreach x d vals body => simp only [stmtS]; exact ih.fe x d vals body st
+      | inline ss => simp only [stmtS]; exact ih.block ss st
       | brk => simp [stmtS]
       | cont => simp [stmtS]
       | exit => simp [stmtS]
@@ -610,6 +611,7 @@ theorem insInv : ∀ fuel, InsInv fuel
       | ifs br els => simp only [stmtS]; exact ih.ifs n br els st hne
       | «while» c body => simp only [stmtS]; exact ih.whl n c body st hne
       | foreach x d vals body => simp only [stmtS]; exact ih.fe n x d vals body st hne
+      | inline ss => simp only [stmtS]; exact ih.block n ss st hne
       | brk => simp [stmtS]
       | cont => simp [stmtS]
       | exit => simp [stmtS]
@@ -908,6 +910,7 @@ theorem refInv : ∀ fuel, RefInv fuel
         simp only at h1 h3 h4 hk hs ht
         refine ⟨?_, h4, ⟨hk, hs, ht⟩⟩
         simp only [St.pop, h1, h3]
+      | inline ss => simp only [stmtI, stmtS]; exact ih.block ss rv st
       | brk => simp only [stmtI, stmtS]; exact ⟨rfl, rfl, ⟨by simp, by simp, by simp⟩⟩
       | cont => simp only [stmtI, stmtS]; exact ⟨rfl, rfl, ⟨by simp, by simp, by simp⟩⟩
       | exit => simp only [stmtI, stmtS]; exact ⟨rfl, rfl, ⟨by simp, by simp, by simp⟩⟩
@@ -1494,6 +1497,7 @@ theorem leInv : ∀ fuel, LeInv fuel
       | ifs br els => simp only [stmtS]; exact (ih.ifs br els st).tail
       | «while» c body => simp only [stmtS]; exact (ih.whl c body st).tail
       | foreach x d vals body => simp only [stmtS]; exact (ih.fe x d vals body st).tail
+      | inline ss => simp only [stmtS]; exact ih.block ss st
       | brk => simp only [stmtS]; exact StackLE.refl _
       | cont => simp only [stmtS]; exact StackLE.refl _
       | exit => simp only [stmtS]; exact StackLE.refl _
